@@ -1,19 +1,19 @@
 (* C04 - SPARQL graph patterns: rdflib's top-down evaluation (model: Sparql/EvalTD.v,
-   following /repo after the repairs a7157fc3, a24372ba, fd13260a) against the
+   following /repo after the repairs a7157fc3, a24372ba, fd13260a, 3512ad97) against the
    bottom-up semantics of SPARQL 1.1 section 18 (Sparql/EvalBU.v).
 
    FULL STATEMENT (not a theorem - refuted below):
      forall c, spec_ok c (model_obs c) = true
    i.e. for every dataset and every algebra term the top-down evaluator returns
-   the bottom-up multiset.  The faithful model violates it in eight syntactically
-   delimited regions (Sparql/Findings.v, kf c <> 0: findings 1-7 and 9; 8, 10, 11
+   the bottom-up multiset.  The faithful model violates it in seven syntactically
+   delimited regions (Sparql/Findings.v, kf c <> 0: findings 1, 2, 4-7 and 9; 3, 8, 10, 11
    have been repaired).  Proved: the push-down theorem
      eval_td ctx P =perm= [mu + ctx | mu in eval_bu P, mu compatible with ctx]
    for every context on the fragment {BGP, Join (lazy and hash), LeftJoin, Union,
    Minus, Extend, Graph, Values, Filter, sub-SELECT as the right operand of a lazy
    join, sub-SELECT / DISTINCT where no binding can be pushed in} under syntactic
    side conditions that are the negations of the trigger predicates of findings
-   1, 2, 3, 4, 5, 6, 7 and (locally) 9; expressions: everything incl. (NOT) EXISTS
+   1, 2, 4, 5, 6, 7 and (locally) 9; expressions: everything incl. (NOT) EXISTS
    over a pattern of the fragment, errors allowed, the four comparisons between
    variables and constants as long as no compared variable can hold a boolean
    made by BIND (C04_pushdown_partial, C04_expressions_partial; typing invariant bu_typed),
@@ -93,20 +93,15 @@ Theorem C04_join_hash : forall c L1 L2,
 Proof. exact hash_join_lists. Qed.
 Print Assumptions C04_join_hash.
 
-Theorem C04_join_hash_set : forall L, NoDup L -> dedup L = L.
-Proof. exact dedup_NoDup. Qed.
-Print Assumptions C04_join_hash_set.
-
-(* the syntactic duplicate-freeness analysis behind the trigger of F-C04-3 is sound
-   (_partial: for VALUES tables in canonical form, [shape]) *)
-Theorem C04_df_sound_partial : forall ds p, shape p = true -> df p = true -> graphs_nodup ds ->
-  forall g, NoDup g -> NoDup (eval_bu ds g p).
-Proof. exact df_sound. Qed.
-Print Assumptions C04_df_sound_partial.
+(* (C04_join_hash_set and C04_df_sound_partial - set() is the identity on duplicate-free
+   lists, and the duplicate-freeness analysis [df] behind the trigger of F-C04-3 - served
+   the hash join that put its right operand into a set; since the repair 3512ad97 the
+   model joins the list itself, the side condition [hash_ok] and trigger 3 are gone;
+   the lemmas stay in Sparql/Agreement.v as history: dedup_NoDup, df_sound.) *)
 
 (* C04_pushdown_partial: on the fragment [frag] -
      BGP; Union; Values; Graph (IRI or variable);
-     Join: lazy, or hash when [hash_ok] (= negation of the trigger of F-C04-3);
+     Join: lazy, or hash (no side condition since the repair 3512ad97 of F-C04-3);
        the right operand of a lazy join may be a sub-SELECT whose projection keeps
        the context variables its pattern mentions (= neg. of F-C04-4);
      Project / Distinct elsewhere: only where [pushed] is empty;
@@ -170,10 +165,10 @@ Theorem C04_spec_construct : forall c tpl g,
 Proof. exact spec_ok_construct. Qed.
 Print Assumptions C04_spec_construct.
 
-(* the full statement fails: all eight open findings with closed witnesses (each is
+(* the full statement fails: all seven open findings with closed witnesses (each is
    replayed on rdflib by the corpus) *)
 Theorem C04_refuted :
-  refuted w1 /\ refuted w2 /\ refuted w3 /\ refuted w4 /\ refuted w5 /\ refuted w6 /\ refuted w7 /\ refuted w9.
+  refuted w1 /\ refuted w2 /\ refuted w4 /\ refuted w5 /\ refuted w6 /\ refuted w7 /\ refuted w9.
 Proof. exact findings_refuted. Qed.
 Print Assumptions C04_refuted.
 
